@@ -22,7 +22,8 @@ REPO = os.environ.get('VERIF_REPO', '/repo')
 
 
 class Case:
-    def __init__(self, name, fn, params=None, opts=None, concrete_samples=3, engine='symnp', note=None):
+    def __init__(self, name, fn, params=None, opts=None, concrete_samples=None, engine='symnp', note=None,
+                 concrete_only=False):
         self.name = name
         self.fn = fn
         self.params = params or {}
@@ -30,6 +31,7 @@ class Case:
         self.concrete_samples = concrete_samples
         self.engine = engine
         self.note = note
+        self.concrete_only = concrete_only     # not encodable symbolically: exercised by concrete sampling only
 
 
 def load_harness(pid):
@@ -148,7 +150,7 @@ def main(argv=None):
     t_start = time.time()
     mod = load_harness(pid)
     cases = mod.cases(tier, seed)
-    idxs = [i for i, c in enumerate(cases) if not a.only or re.search(a.only, c.name)]
+    idxs = [i for i, c in enumerate(cases) if (not a.only or re.search(a.only, c.name)) and not c.concrete_only]
     work = [(pid, i, tier, seed) for i in idxs]
     ctx = mp.get_context('fork')
     if a.jobs > 1 and len(work) > 1:
